@@ -448,6 +448,21 @@ func genSpec(r *rng, o genOpts) *Spec {
 			for j := 0; j < nv; j++ {
 				at.EnumVals = append(at.EnumVals, fmt.Sprintf("ev%d%s", j, g.word(0, 3)))
 			}
+			// value texts of every width: in non-ASCII mode the values are short and long texts of
+			// 1-, 2-, 3- and 4-byte runes next to ASCII ones (a forked stream: the rest of the
+			// specification does not depend on it)
+			if o.NonASCII {
+				fr := &rng{s: r.s ^ 0x5851f42d4c957f2d}
+				pool := []string{"V", "\u00b0C", "\u03a9", "\u00e4\u00f6\u00fc\u00df", "\u6e29\u5ea6", "\U0001F600", "k\u03a9 ", "\u20ac\u2211\u20ac\u2211\u20ac\u2211", "a\u00e4\u65e5\U0001F600z", "mA"}
+				for j := range at.EnumVals {
+					switch fr.below(3) {
+					case 0: // a text of the pool alone (unique by its position)
+						at.EnumVals[j] = pool[fr.below(len(pool))] + strings.Repeat("'", j)
+					case 1: // the ASCII value followed by one
+						at.EnumVals[j] += pool[fr.below(len(pool))]
+					}
+				}
+			}
 			// repeated values at the front, in the middle and at the end (the factory skips them)
 			for k := r.below(4); k > 0 && r.chance(75); k-- {
 				dup := at.EnumVals[r.below(len(at.EnumVals))]
